@@ -275,7 +275,60 @@ fn big_op(op: &str, a: &[&str]) -> Option<String> {
     }
 }
 
+fn nanify64(b: u64) -> String {
+    if f64::from_bits(b).is_nan() { "nan".to_string() } else { format!("{}", b) }
+}
+fn nanify32(b: u32) -> String {
+    if f32::from_bits(b).is_nan() { "nan".to_string() } else { format!("{}", b) }
+}
+/// C07: the crate on FP64/FP32 values next to the host's native operation
+fn nat_op(wide: bool, op: &str, a: u64, b: u64) -> Option<String> {
+    if wide {
+        let (fa, fb) = (f64::from_bits(a), f64::from_bits(b));
+        let (x, y) = (Float::from_f64(fa), Float::from_f64(fb));
+        let o = |v: Float, n: f64| Some(format!("{}\t{}", nanify64(v.as_f64().to_bits()), nanify64(n.to_bits())));
+        match op {
+            "add" => o(x + y, fa + fb),
+            "sub" => o(x - y, fa - fb),
+            "mul" => o(x * y, fa * fb),
+            "div" => o(x / y, fa / fb),
+            "rem" => o(x.rem(&y), fa % fb),
+            "trunc" => o(x.trunc(), fa.trunc()),
+            "round" => o(x.round(), fa.round()),
+            "tof32" => Some(format!("{}\t{}", nanify32(x.as_f32().to_bits()), nanify32((fa as f32).to_bits()))),
+            "cmp" => Some(format!(
+                "{}{}{}{}{}\t{}{}{}{}{}",
+                b01(x < y), b01(x <= y), b01(x > y), b01(x >= y), b01(x == y),
+                b01(fa < fb), b01(fa <= fb), b01(fa > fb), b01(fa >= fb), b01(fa == fb)
+            )),
+            _ => None,
+        }
+    } else {
+        let (fa, fb) = (f32::from_bits(a as u32), f32::from_bits(b as u32));
+        let (x, y) = (Float::from_f32(fa), Float::from_f32(fb));
+        let o = |v: Float, n: f32| Some(format!("{}\t{}", nanify32(v.as_f32().to_bits()), nanify32(n.to_bits())));
+        match op {
+            "add" => o(x + y, fa + fb),
+            "sub" => o(x - y, fa - fb),
+            "mul" => o(x * y, fa * fb),
+            "div" => o(x / y, fa / fb),
+            "rem" => o(x.rem(&y), fa % fb),
+            "trunc" => o(x.trunc(), fa.trunc()),
+            "round" => o(x.round(), fa.round()),
+            "cmp" => Some(format!(
+                "{}{}{}{}{}\t{}{}{}{}{}",
+                b01(x < y), b01(x <= y), b01(x > y), b01(x >= y), b01(x == y),
+                b01(fa < fb), b01(fa <= fb), b01(fa > fb), b01(fa >= fb), b01(fa == fb)
+            )),
+            _ => None,
+        }
+    }
+}
+
 fn handle(t: &[&str]) -> Option<String> {
+    if t.len() == 4 && (t[0] == "nat64" || t[0] == "nat32") {
+        return nat_op(t[0] == "nat64", t[1], t[2].parse().ok()?, t[3].parse().ok()?);
+    }
     if t.len() >= 2 && t[0] == "big" {
         return big_op(t[1], &t[2..]);
     }
